@@ -798,6 +798,12 @@ mod sync {
                                     }
                                 }
                                 #[cfg(ohkami_verif)] crate::__verif__::sched_point("poll:published");
+                                // The Ctrl-C handler may have run after `CATCH` was checked above and
+                                // before the waker was published: then nobody will ever wake this task.
+                                if CATCH.load(Ordering::SeqCst) {
+                                    crate::DEBUG!("[CtrlC::catch] Ready");
+                                    return Poll::Ready(None)
+                                }
                                 Poll::Pending
                             }
                         }
